@@ -174,6 +174,33 @@ def followup(stage, lines, model, checked, release, tier, rng):
                     L.append("@impl " + " ".join(t[:3]) + " 1 real")
             L.append(l + " ")      # trailing blank: a distinct request line with the same meaning
         return L
+    if stage == 4:
+        # several verifications on ONE PublicKey object (accepted and rejected calls mixed, contexts of different shapes):
+        # each decision must be the one a fresh object gives
+        idx = {l: i for i, l in enumerate(lines)}
+        for (rl, i1, i2) in _st.get("reuse", []):
+            if i1 not in idx or i2 not in idx:
+                continue
+            s1 = K.sig_of(checked[idx[i1]]); s2 = K.sig_of(checked[idx[i2]])
+            if not s1 or not s2:
+                continue
+            t1 = i1.split(); t2 = i2.split()
+            api = t1[0].split("::")[0]
+            s = [k for k, v in K.API.items() if v == api][0]
+            pk = [p_ for (s_, m_, p_, r_) in _st["sigreq"] if s_ == s and r_.split()[2] == t1[1]]
+            if not pk:
+                continue
+            pk = pk[0]
+            m1, c1, m2, c2 = t1[2], t1[3], t2[2], t2[3]
+            for (a, b) in (((m1, s1, c1), (m2, s2, c2)), ((m1, s2, c1), (m2, s2, c2)), ((m2, s2, c2), (m1, s2, c1)), ((m1, s1, c2), (m1, s1, c1))):
+                va = "%s::PublicKey::verify %s %s %s %s" % (api, pk, a[0], a[1], a[2])
+                vb = "%s::PublicKey::verify %s %s %s %s" % (api, pk, b[0], b[1], b[2])
+                vr = "@impl %s::PublicKey::verify_reuse %s %s %s %s %s %s %s" % (api, pk, a[0], a[1], a[2], b[0], b[1], b[2])
+                for l in (va, vb, vr):
+                    if l not in _st["iso"]:
+                        _st["iso"].add(l); L.append(l)
+                _st.setdefault("vreuse", []).append((vr, va, vb))
+        return L
     return []
 
 
@@ -186,6 +213,12 @@ def violated_all(lines, model, checked, release):
                 want = "ok %s %s" % (ans[idxl[i1]][3:], ans[idxl[i2]][3:])
                 if ans[idxl[rl]] != want:
                     out.append((idxl[rl], "%s build: two signing calls on one %s::SecretKey object do not return what each returns on a fresh object" % (prof, rl.split()[1].split("::")[0])))
+    for (vr, va, vb) in _st.get("vreuse", []):
+        if vr in idxl and va in idxl and vb in idxl:
+            for prof, ans in (("checked", checked), ("wrapping", release)):
+                want = "ok %s %s" % (ans[idxl[va]][3:], ans[idxl[vb]][3:])
+                if ans[idxl[vr]] != want:
+                    out.append((idxl[vr], "%s build: two verifications on one %s::PublicKey object answer %s, fresh objects answer %s" % (prof, vr.split()[1].split("::")[0], ans[idxl[vr]], want)))
     first = {}
     for i, l in enumerate(lines):
         if l.startswith("@impl interleave"):
